@@ -464,7 +464,26 @@ func launchOne(e *Env, p *plan) Obs {
 		runtime.LockOSThread() // never unlocked: the thread (with its modified credentials) dies with the goroutine
 		ch <- launchLocked(e, p)
 	}()
-	return <-ch
+	select {
+	case ob := <-ch:
+		return ob
+	case <-time.After(40 * time.Second):
+	}
+	// the launch is wedged: kill whatever children exist so that Start gets EOF, and report a set-up failure
+	for _, f := range strings.Fields(readKids()) {
+		if k, _ := strconv.Atoi(f); k > 0 {
+			unix.Kill(k, unix.SIGKILL)
+		}
+	}
+	select {
+	case ob := <-ch:
+		ob.Setup = "driver: launch did not finish within 40 s (children killed)"
+		return ob
+	case <-time.After(10 * time.Second):
+	}
+	return Obs{Ev: "Observe", ID: p.c.ID, Opt: p.c.Opt, Fail: p.c.Fail, Idx: p.c.Idx, CbRes: p.c.Cb, Req: p.req, Self: emptySelf(),
+		Out: Outside{NS: nsMap(func(string) string { return "" })}, PNS: nsOf("self"), PIDs: []int{0, 0}, PGroups: []int{},
+		Stops: []string{}, Setup: "driver: launch wedged"}
 }
 
 func launchLocked(e *Env, p *plan) (ob Obs) {
@@ -759,7 +778,8 @@ func hangWatch(tid int, strace bool, done chan struct{}, res chan string) {
 				continue
 			}
 			state := statusField(string(st), "State")
-			if strings.HasPrefix(state, "T") && (strace || statusField(string(st), "TracerPid") == "0") {
+			if (strings.HasPrefix(state, "T") && statusField(string(st), "TracerPid") == "0") ||
+				(strace && (strings.HasPrefix(state, "T") || strings.HasPrefix(state, "t"))) {
 				stopped, _ = strconv.Atoi(f)
 			}
 		}
